@@ -8,6 +8,9 @@ class Undecided(Exception):
     pass
 
 
+_FORKED = object()
+
+
 CMP_BINOPS = {"Lt", "Gt", "Le", "Ge", "Eq", "Ne"}
 CMP_CALLS = {"lt": "Lt", "gt": "Gt", "le": "Le", "ge": "Ge", "eq": "Eq", "ne": "Ne"}
 TRANSPARENT = {"to_hex", "clone", "deref", "as_ref", "borrow", "as_str", "as_bytes", "as_slice", "to_bytes", "to_string",
@@ -20,7 +23,7 @@ def _cmp(op, rel):
 
 
 class Evaluator:
-    def __init__(self, f, classify, relation, opaque_switch, max_steps=2000):
+    def __init__(self, f, classify, relation, opaque_switch, max_steps=2000, call_hook=None):
         """classify(value) -> class name or None; relation(class_a, class_b) -> -1/0/1 or None;
         opaque_switch(bb, value, targets) -> successor block or None"""
         self.f = f
@@ -28,6 +31,7 @@ class Evaluator:
         self.relation = relation
         self.opaque_switch = opaque_switch
         self.max_steps = max_steps
+        self.call_hook = call_hook
         self.trace = []
 
     def place_value(self, env, pl):
@@ -35,6 +39,14 @@ class Evaluator:
         for e in pl[1:]:
             if e == "*":
                 continue
+            if e.startswith("as ") and v[0] == "variant":
+                continue
+            if e.startswith(".") and e[1:].isdigit() and v[0] in ("variant", "tuple"):
+                items = v[3] if v[0] == "variant" else v[1]
+                i = int(e[1:])
+                if i < len(items):
+                    v = items[i]
+                    continue
             v = ("proj", v, e)
         return v
 
@@ -55,17 +67,35 @@ class Evaluator:
         ca = self.classify(a) if a[0] != "int" else ("#%d" % a[1])
         cb = self.classify(b) if b[0] != "int" else ("#%d" % b[1])
         if ca is None or cb is None:
-            raise Undecided("comparison of unclassified values %r %s %r" % (a, op, b))
+            return ("opaque", "cmp-unclassified")
         rel = self.relation(ca, cb)
         if rel is None:
-            raise Undecided("no ordering given for (%s, %s)" % (ca, cb))
+            return ("opaque", "cmp-unordered:%s,%s" % (ca, cb))
         self.trace.append("%s %s %s" % (ca, op, cb))
         return ("int", int(_cmp(op, rel)))
 
     def run(self, env):
+        """deterministic evaluation: every branch must be decided"""
+        res = self.run_all(env, fork=False)
+        return res[0] if res else None
+
+    def run_all(self, env, fork=True, max_paths=256):
+        """explore all paths; an undecidable switch forks over its successors when fork=True"""
+        results = []
+        work = [(0, dict(env), 0)]
+        paths = 0
+        while work:
+            bb, env, steps = work.pop()
+            paths += 1
+            if paths > max_paths:
+                raise Undecided("too many paths")
+            out = self._run_from(bb, env, steps, fork, work)
+            if out is not _FORKED:
+                results.append(out)
+        return results
+
+    def _run_from(self, bb, env, steps, fork, work):
         f = self.f
-        bb = 0
-        steps = 0
         while True:
             steps += 1
             if steps > self.max_steps:
@@ -95,10 +125,14 @@ class Evaluator:
                     v = self.operand(env, s["o"][0])
                     if v[0] == "ordering":
                         env[d[0]] = ("int", {-1: 255, 0: 0, 1: 1}[v[1]])
+                    elif v[0] == "variant" and v[1] in ("Result", "Option", "ControlFlow"):
+                        env[d[0]] = ("int", {"Ok": 0, "Err": 1, "None": 0, "Some": 1, "Continue": 0, "Break": 1}[v[2]])
                     else:
                         env[d[0]] = ("discr", v)
-                elif k == "agg" and not s.get("o"):
-                    env[d[0]] = ("variant", last_seg(s.get("adt")), s.get("variant"))
+                elif k == "agg":
+                    env[d[0]] = ("variant", last_seg(s.get("adt")), s.get("variant"), tuple(self.operand(env, o) for o in s.get("o", [])))
+                elif k == "tuple":
+                    env[d[0]] = ("tuple", tuple(self.operand(env, o) for o in s.get("o", [])))
                 else:
                     env[d[0]] = ("opaque", "stmt:%s" % k)
             t = blk["t"]
@@ -120,7 +154,17 @@ class Evaluator:
                 else:
                     nxt = self.opaque_switch(bb, v, t)
                     if nxt is None:
-                        raise Undecided("branch on opaque value %r at bb%d" % (v, bb))
+                        if not fork:
+                            raise Undecided("branch on opaque value %r at bb%d" % (v, bb))
+                        succs = []
+                        for val, tb in t["targets"]:
+                            if tb not in succs:
+                                succs.append(tb)
+                        if t["otherwise"] not in succs:
+                            succs.append(t["otherwise"])
+                        for sb in succs:
+                            work.append((sb, dict(env), steps))
+                        return _FORKED
                     bb = nxt
             elif k == "call":
                 cal = t["callee"]
@@ -128,7 +172,10 @@ class Evaluator:
                 args = [self.operand(env, a) for a in t["args"]]
                 dst = t["dst"]
                 res = ("opaque", "call:%s" % name, tuple(args[:1]))
-                if name in CMP_CALLS and len(args) == 2 and last_seg(cal.get("trait")) in ("PartialOrd", "PartialEq"):
+                hooked = self.call_hook(cal, args) if self.call_hook else None
+                if hooked is not None:
+                    res = hooked
+                elif name in CMP_CALLS and len(args) == 2 and last_seg(cal.get("trait")) in ("PartialOrd", "PartialEq"):
                     res = self.compare(CMP_CALLS[name], args[0], args[1])
                 elif name == "cmp" and len(args) == 2 and last_seg(cal.get("trait")) == "Ord":
                     ca, cb = self.classify(args[0]), self.classify(args[1])
@@ -139,6 +186,9 @@ class Evaluator:
                         raise Undecided("no ordering for (%s,%s)" % (ca, cb))
                     self.trace.append("%s cmp %s" % (ca, cb))
                     res = ("ordering", rel)
+                elif name == "branch" and last_seg(cal.get("trait")) == "Try" and args and args[0][0] == "variant" and args[0][1] in ("Result", "Option"):
+                    okv = args[0][2] in ("Ok", "Some")
+                    res = ("variant", "ControlFlow", "Continue" if okv else "Break", args[0][3] if len(args[0]) > 3 else ())
                 elif name in TRANSPARENT and args:
                     res = args[0]
                 if len(dst) == 1:
